@@ -354,6 +354,12 @@ def fallback_scan(ctx, R, rid):
                                 if isinstance(x, ast.Return) and (x.value is None or norm(x.value) != v):
                                     R.bad(rid, "%s|%s early return" % (gs.key, lp.iter.attr), gs.loc(x),
                                           "the fallback scan over parent.%s returns `%s` from inside the loop instead of the matching child" % (lp.iter.attr, norm(x.value)))
+                                if isinstance(x, ast.Compare) and len(x.ops) == 1 and isinstance(x.ops[0], (ast.In, ast.NotIn)) and norm(x.left) == "key" \
+                                        and norm(x.comparators[0]) not in (v, v + ".data", v + "._data"):
+                                    R.bad(rid, "%s|%s key-guard" % (gs.key, lp.iter.attr), gs.loc(x),
+                                          "the fallback scan over parent.%s tests `%s` instead of whether the child `%s` carries the key: children are "
+                                          "skipped (or a KeyError is raised) depending on the parent's data, so exact-name queries disagree with wildcard ones"
+                                          % (lp.iter.attr, norm(x), v))
                                 if isinstance(x, ast.Compare) and len(x.ops) == 1 and isinstance(x.ops[0], ast.Eq) and "value" in (norm(x.left), norm(x.comparators[0])):
                                     other = norm(x.comparators[0]) if norm(x.left) == "value" else norm(x.left)
                                     if other != "%s[key]" % v:
